@@ -164,10 +164,20 @@ static int W_URL_ESC, W_URL_PLAIN, W_URL_MODE, W_URL_MALFORMED, W_Q_EMPTYV, W_Q_
 static int W_SHA_1BLK, W_SHA_2BLK, W_SHA_EDGE, W_SHA_DIRECT, W_SHA_LARGE;
 static int N_URL_STD, N_B64_LARGE;
 
-static std::map<std::string, int> sigcount; // per process: the first few of each class are written out, the rest counted
+// One defect fails on millions of enumerated inputs: the first few failures of each class (counted across all workers in
+// shared memory) are written out as violations, further ones of the same class are only counted.
+static const char* SIGS[] = { "b64_encode", "b64_decode", "b64_ws", "b64_neg_length", "b64_oob", "b64_explicit_len", "hex_encode", "hex_decode", "hex_neg_length", "hex_oob",
+                              "url_roundtrip", "url_oob", "query_roundtrip", "sha1", "sha_oob" };
+enum { NSIGS = sizeof SIGS / sizeof *SIGS, PER_SIG = 4 };
+static int C_SIG[NSIGS];
 static void bad(const char* sig, const std::string& desc, const std::string& kase) {
-	if (vf::opt.replay || ++sigcount[sig] <= 3) vf::violation(sig, desc, kase);
-	else vf::note(std::string("suppressed_repeats:") + sig);
+	int k = 0;
+	while (k < NSIGS && strcmp(SIGS[k], sig)) k++;
+	if (k < NSIGS) {
+		vf::add(C_SIG[k]);
+		if (!vf::opt.replay && vf::get(C_SIG[k]) > PER_SIG) return;
+	}
+	vf::violation(sig, desc, kase);
 }
 static std::string show(const std::string& s) { // printable rendering
 	std::string o = "\"";
@@ -192,9 +202,12 @@ struct Tight {
 	explicit Tight(const Bytes& b) { p = (byte*)malloc(b.size()); if (b.size()) memcpy(p, b.data(), b.size()); }
 	~Tight() { free(p); }
 };
-static bool asan(const char* sig, const std::string& what, const std::string& kase) {
+// descriptions are only built when something failed (W(...) wraps the expression in a lambda)
+#define W(expr) [&]() -> std::string { return expr; }
+template <class D>
+static bool asan(const char* sig, D what, const std::string& kase) {
 	if (!vf::asan_tripped()) return false;
-	bad(sig, "AddressSanitizer: " + vf::asan_what() + " in " + what, kase);
+	bad(sig, "AddressSanitizer: " + vf::asan_what() + " in " + what(), kase);
 	vf::asan_clear();
 	return true;
 }
@@ -202,11 +215,12 @@ static bool asan(const char* sig, const std::string& what, const std::string& ka
 // ------------------------------------------------------------------------------------------------
 // (A) byte arrays: encode == standard text, decode(text) == bytes, every calling form
 // ------------------------------------------------------------------------------------------------
-static void decoded_is(const ByteArray& r, const Bytes& d, const char* sig, const std::string& what, const std::string& kase) {
+template <class D>
+static void decoded_is(const ByteArray& r, const Bytes& d, const char* sig, D what, const std::string& kase) {
 	vf::add(C_EVAL);
-	if (r.length() < 0) { bad("b64_neg_length", what + " returned an array of length " + fmt("%d", r.length()), kase); vf::asan_clear(); return; }
+	if (r.length() < 0) { bad("b64_neg_length", what() + " returned an array of length " + fmt("%d", r.length()), kase); vf::asan_clear(); return; }
 	if (asan(strcmp(sig, "b64_explicit_len") == 0 ? sig : "b64_oob", what, kase)) return;
-	if (!same(r, d)) bad(sig, what + " = " + showarr(r) + ", expected [" + fmt("%d", (int)d.size()) + " bytes] " + vf::hex(d.substr(0, 24)), kase);
+	if (!same(r, d)) bad(sig, what() + " = " + showarr(r) + ", expected [" + fmt("%d", (int)d.size()) + " bytes] " + vf::hex(d.substr(0, 24)), kase);
 }
 static void check_array(const Bytes& d, const std::string& kase, bool full) {
 	vf::cur(kase); vf::cur_sig("codec_crash");
@@ -219,31 +233,31 @@ static void check_array(const Bytes& d, const std::string& kase, bool full) {
 		Tight t(d);
 		String e = encodeBase64(t.p, n);
 		vf::add(C_EVAL);
-		if (!asan("b64_oob", "encodeBase64(ptr," + fmt("%d", n) + ")", kase) && vfx::S(e) != text)
+		if (!asan("b64_oob", W("encodeBase64(ptr," + fmt("%d", n) + ")"), kase) && vfx::S(e) != text)
 			bad("b64_encode", "encodeBase64(" + vf::hex(d.substr(0, 24)) + (n > 24 ? "..." : "") + fmt(" [%d bytes]) = ", n) + show(vfx::S(e)) + ", RFC 4648 text is " + show(text), kase);
 		String h = encodeHex(t.p, n);
 		vf::add(C_EVAL);
-		if (!asan("hex_oob", "encodeHex(ptr," + fmt("%d", n) + ")", kase) && vfx::S(h) != htext)
+		if (!asan("hex_oob", W("encodeHex(ptr," + fmt("%d", n) + ")"), kase) && vfx::S(h) != htext)
 			bad("hex_encode", "encodeHex(" + vf::hex(d.substr(0, 24)) + fmt(" [%d bytes]) = ", n) + show(vfx::S(h)) + ", expected " + show(htext), kase);
 		if (full) {
 			ByteArray a(t.p, n);
 			String e2 = encodeBase64(a), h2 = encodeHex(a);
 			vf::add(C_EVAL, 2);
-			if (!asan("b64_oob", "encodeBase64(ByteArray)", kase) && (vfx::S(e2) != text || vfx::S(h2) != htext))
+			if (!asan("b64_oob", W("encodeBase64(ByteArray)"), kase) && (vfx::S(e2) != text || vfx::S(h2) != htext))
 				bad(vfx::S(e2) != text ? "b64_encode" : "hex_encode", "encodeBase64/encodeHex(ByteArray of " + fmt("%d", n) + " bytes) = " + show(vfx::S(e2)) + " / " + show(vfx::S(h2)), kase);
 			if (memchr(d.data(), 0, d.size()) == 0 && n <= 4096) { // String form (text data)
 				String s = vfx::A(d);
 				vfx::Flush fl(s);
 				String e3 = encodeBase64(s);
 				vf::add(C_EVAL);
-				if (!asan("b64_oob", "encodeBase64(String)", kase) && vfx::S(e3) != text) bad("b64_encode", "encodeBase64(String " + show(d) + ") = " + show(vfx::S(e3)) + ", RFC 4648 text is " + show(text), kase);
+				if (!asan("b64_oob", W("encodeBase64(String)"), kase) && vfx::S(e3) != text) bad("b64_encode", "encodeBase64(String " + show(d) + ") = " + show(vfx::S(e3)) + ", RFC 4648 text is " + show(text), kase);
 			}
 		}
 	}
 	{ // decoding is exercised on the standard text, so it does not depend on asl's encoder
 		String t = vfx::A(text);
 		vfx::Flush fl(t);
-		decoded_is(decodeBase64(t), d, "b64_decode", "decodeBase64(String " + show(text) + ")", kase);
+		decoded_is(decodeBase64(t), d, "b64_decode", W("decodeBase64(String " + show(text) + ")"), kase);
 	}
 	{
 		String t = vfx::A(htext);
@@ -251,20 +265,22 @@ static void check_array(const Bytes& d, const std::string& kase, bool full) {
 		ByteArray r = decodeHex(t);
 		vf::add(C_EVAL);
 		if (r.length() < 0) bad("hex_neg_length", "decodeHex(" + show(htext) + ") returned length " + fmt("%d", r.length()), kase);
-		else if (!asan("hex_oob", "decodeHex(" + show(htext) + ")", kase) && !same(r, d)) bad("hex_decode", "decodeHex(" + show(htext) + ") = " + showarr(r) + ", expected " + vf::hex(d.substr(0, 24)), kase);
+		else if (!asan("hex_oob", W("decodeHex(" + show(htext) + ")"), kase) && !same(r, d)) bad("hex_decode", "decodeHex(" + show(htext) + ") = " + showarr(r) + ", expected " + vf::hex(d.substr(0, 24)), kase);
 	}
 	if (!full) return;
-	{ vfx::FlushBuf fb(text); decoded_is(decodeBase64(fb.p), d, "b64_decode", "decodeBase64(char* " + show(text) + ")", kase); }
-	{ vfx::FlushBuf fb(text); decoded_is(decodeBase64(fb.p, (int)text.size()), d, "b64_decode", "decodeBase64(char* " + show(text) + fmt(", %d)", (int)text.size()), kase); }
+	{ vfx::FlushBuf fb(text); decoded_is(decodeBase64(fb.p), d, "b64_decode", W("decodeBase64(char* " + show(text) + ")"), kase); }
+	{ vfx::FlushBuf fb(text); decoded_is(decodeBase64(fb.p, (int)text.size()), d, "b64_decode", W("decodeBase64(char* " + show(text) + fmt(", %d)", (int)text.size())), kase); }
+	vf::cur_sig("b64_explicit_len"); // a crash from here on is the explicit-length form running past n
 	{ // explicit length shorter than the NUL-terminated buffer: only the first n characters are the text
 		vfx::FlushBuf fb(text + "QUJDRA==");
 		vf::add(W_NLT);
-		decoded_is(decodeBase64(fb.p, (int)text.size()), d, "b64_explicit_len", "decodeBase64(char* " + show(text + "QUJDRA==") + fmt(", n=%d)", (int)text.size()), kase);
+		decoded_is(decodeBase64(fb.p, (int)text.size()), d, "b64_explicit_len", W("decodeBase64(char* " + show(text + "QUJDRA==") + fmt(", n=%d)", (int)text.size())), kase);
 	}
 	{ // explicit length on a buffer that holds exactly n characters (no terminator)
 		Tight tt(text);
-		decoded_is(decodeBase64((const char*)tt.p, (int)text.size()), d, "b64_explicit_len", "decodeBase64(unterminated buffer " + show(text) + fmt(", n=%d)", (int)text.size()), kase);
+		decoded_is(decodeBase64((const char*)tt.p, (int)text.size()), d, "b64_explicit_len", W("decodeBase64(unterminated buffer " + show(text) + fmt(", n=%d)", (int)text.size())), kase);
 	}
+	vf::cur_sig("codec_crash");
 	if (n > 6) { // longer texts: the usual line-wrapped layouts (short texts get every insertion in pass W)
 		const char* seps[] = { "\r\n", "\n", " " };
 		int every[] = { 76, 64, 1 };
@@ -275,7 +291,7 @@ static void check_array(const Bytes& d, const std::string& kase, bool full) {
 			String t = vfx::A(w);
 			vfx::Flush fl(t);
 			vf::add(W_WS);
-			decoded_is(decodeBase64(t), d, "b64_ws", fmt("decodeBase64(text of %d bytes with %s every %d characters) ", n, l == 0 ? "CRLF" : l == 1 ? "LF" : "a space", every[l]) + show(w), kase);
+			decoded_is(decodeBase64(t), d, "b64_ws", W(fmt("decodeBase64(text of %d bytes with %s every %d characters) ", n, l == 0 ? "CRLF" : l == 1 ? "LF" : "a space", every[l]) + show(w)), kase);
 		}
 	}
 }
@@ -293,8 +309,8 @@ static void check_ws_text(const std::string& w, const std::string& kase) {
 	if (st.size() != w.size()) vf::add(W_WS);
 	size_t eq = w.find('=');
 	if (eq != std::string::npos && (w.find_first_of(" \t\r\n", eq) != std::string::npos || (eq && is_ws(w[eq - 1])))) vf::add(W_WS_PAD);
-	{ String t = vfx::A(w); vfx::Flush fl(t); decoded_is(decodeBase64(t), d, "b64_ws", "decodeBase64(String " + show(w) + ")", kase); }
-	{ vfx::FlushBuf fb(w); decoded_is(decodeBase64(fb.p), d, "b64_ws", "decodeBase64(char* " + show(w) + ")", kase); }
+	{ String t = vfx::A(w); vfx::Flush fl(t); decoded_is(decodeBase64(t), d, "b64_ws", W("decodeBase64(String " + show(w) + ")"), kase); }
+	{ vfx::FlushBuf fb(w); decoded_is(decodeBase64(fb.p), d, "b64_ws", W("decodeBase64(char* " + show(w) + ")"), kase); }
 }
 static const char WS[] = " \n\r\t";
 // all ways of inserting up to k whitespace characters into text (insertion points non-decreasing)
@@ -310,9 +326,10 @@ static void ws_insertions(const std::string& text, int k, size_t from, const std
 // ------------------------------------------------------------------------------------------------
 // (M) arbitrary / malformed Base64 text: terminates, stays in bounds, length >= 0
 // ------------------------------------------------------------------------------------------------
-static void malformed_result(const ByteArray& r, const char* oobsig, const std::string& what, const std::string& kase) {
+template <class D>
+static void malformed_result(const ByteArray& r, const char* oobsig, D what, const std::string& kase) {
 	vf::add(C_EVAL);
-	if (r.length() < 0) { bad("b64_neg_length", what + " returned an array of length " + fmt("%d", r.length()), kase); vf::asan_clear(); return; }
+	if (r.length() < 0) { bad("b64_neg_length", what() + " returned an array of length " + fmt("%d", r.length()), kase); vf::asan_clear(); return; }
 	if (asan(oobsig, what, kase)) return;
 	vf::add(r.length() ? W_BADRES_NONEMPTY : W_BADRES_EMPTY);
 }
@@ -333,15 +350,16 @@ static void check_b64_text(const std::string& s) {
 	if (pads && pads == sym) vf::add(W_PADONLY);
 	if (padmid) vf::add(W_PADMID);
 	if (junk) vf::add(W_JUNK);
-	{ String t = vfx::A(s); vfx::Flush fl(t); malformed_result(decodeBase64(t), "b64_oob", "decodeBase64(String " + show(s) + ")", kase); }
+	{ String t = vfx::A(s); vfx::Flush fl(t); malformed_result(decodeBase64(t), "b64_oob", W("decodeBase64(String " + show(s) + ")"), kase); }
 	vfx::FlushBuf fb(s);
-	malformed_result(decodeBase64(fb.p), "b64_oob", "decodeBase64(char* " + show(s) + ")", kase);
+	malformed_result(decodeBase64(fb.p), "b64_oob", W("decodeBase64(char* " + show(s) + ")"), kase);
+	vf::cur_sig("b64_explicit_len");
 	for (int n = 0; n < L; n++) { // the text is the first n characters of a longer NUL-terminated buffer
 		vf::add(W_NLT);
-		malformed_result(decodeBase64(fb.p, n), "b64_explicit_len", "decodeBase64(char* " + show(s) + fmt(", n=%d)", n), kase);
+		malformed_result(decodeBase64(fb.p, n), "b64_explicit_len", W("decodeBase64(char* " + show(s) + fmt(", n=%d)", n)), kase);
 	}
 	Tight tt(s);
-	malformed_result(decodeBase64((const char*)tt.p, L), "b64_explicit_len", "decodeBase64(unterminated buffer " + show(s) + fmt(", n=%d)", L), kase);
+	malformed_result(decodeBase64((const char*)tt.p, L), "b64_explicit_len", W("decodeBase64(unterminated buffer " + show(s) + fmt(", n=%d)", L)), kase);
 }
 
 // ------------------------------------------------------------------------------------------------
@@ -360,7 +378,7 @@ static void check_hex_text(const std::string& s) {
 	vfx::Flush fl(t);
 	ByteArray r = decodeHex(t);
 	if (r.length() < 0) { bad("hex_neg_length", "decodeHex(" + show(s) + ") returned length " + fmt("%d", r.length()), kase); vf::asan_clear(); return; }
-	if (asan("hex_oob", "decodeHex(" + show(s) + ")" + (s.size() % 2 ? fmt(" (odd length %d)", (int)s.size()) : std::string()), kase)) return;
+	if (asan("hex_oob", W("decodeHex(" + show(s) + ")" + (s.size() % 2 ? fmt(" (odd length %d)", (int)s.size()) : std::string())), kase)) return;
 	Bytes d;
 	if (lower && ref_hexdec(s, d)) { // s is the lowercase-hex text of d
 		vf::add(W_HEX_VALID);
@@ -379,10 +397,10 @@ static void check_url(const Bytes& s, int mode) {
 	String in = vfx::A(s);
 	vfx::Flush fl(in);
 	String e = Url::encode(in, mode != 0);
-	if (asan("url_oob", "Url::encode(" + show(s) + fmt(", %d)", mode), kase)) return;
+	if (asan("url_oob", W("Url::encode(" + show(s) + fmt(", %d)", mode)), kase)) return;
 	String d;
 	{ vfx::Flush f2(e); d = Url::decode(e); }
-	if (asan("url_oob", "Url::decode(" + show(vfx::S(e)) + ")", kase)) return;
+	if (asan("url_oob", W("Url::decode(" + show(vfx::S(e)) + ")"), kase)) return;
 	std::string es = vfx::S(e);
 	if (es == s) vf::add(W_URL_PLAIN); else vf::add(W_URL_ESC);
 	if (mode == 1 && es != ref_quote(s, 0)) vf::add(W_URL_MODE);
@@ -397,7 +415,7 @@ static void check_urldec(const std::string& s) {
 	String in = vfx::A(s);
 	vfx::Flush fl(in);
 	String d = Url::decode(in);
-	if (asan("url_oob", "Url::decode(" + show(s) + ")", kase)) return;
+	if (asan("url_oob", W("Url::decode(" + show(s) + ")"), kase)) return;
 	if (vfx::S(d) != ref_unquote(s)) vf::add(W_URL_MALFORMED); // a truncated or non-hex escape was met (no value is demanded for it)
 }
 typedef std::vector<std::pair<Bytes, Bytes> > Entries;
@@ -409,26 +427,26 @@ static void check_query(const Entries& en) {
 	vf::add(C_DISTINCT); vf::add(C_EVAL);
 	std::map<Bytes, Bytes> model;
 	Dic<> d;
-	std::string dd = "{";
+	auto ddf = [&]() { std::string x = "{"; for (size_t i = 0; i < en.size(); i++) x += (i ? ", " : "") + show(en[i].first) + ": " + show(en[i].second); return x + "}"; };
 	for (size_t i = 0; i < en.size(); i++) {
 		d[vfx::A(en[i].first)] = vfx::A(en[i].second);
 		model[en[i].first] = en[i].second;
-		dd += (i ? ", " : "") + show(en[i].first) + ": " + show(en[i].second);
 		if (en[i].second.empty()) vf::add(W_Q_EMPTYV);
 		if ((en[i].first + en[i].second).find_first_of("&=+ %") != std::string::npos) vf::add(W_Q_SPECIAL);
 	}
-	dd += "}";
 	if (model.size() >= 2) vf::add(W_Q_TWO);
 	String p = Url::params(d);
-	if (asan("url_oob", "Url::params(" + dd + ")", kase)) return;
+	if (asan("url_oob", W("Url::params(" + ddf() + ")"), kase)) return;
 	Dic<> q;
 	{ vfx::Flush f(p); q = Url::parseQuery(p); }
-	if (asan("url_oob", "Url::parseQuery(" + show(vfx::S(p)) + ")", kase)) return;
+	if (asan("url_oob", W("Url::parseQuery(" + show(vfx::S(p)) + ")"), kase)) return;
 	std::map<Bytes, Bytes> got;
-	std::string gg = "{";
-	foreach2(String& k, const String& v, q) { got[vfx::S(k)] = vfx::S(v); gg += (gg.size() > 1 ? ", " : "") + show(vfx::S(k)) + ": " + show(vfx::S(v)); }
-	gg += "}";
-	if (got != model || (size_t)q.length() != model.size()) bad("query_roundtrip", "Url::parseQuery(Url::params(" + dd + ")): query string " + show(vfx::S(p)) + " parses to " + gg, kase);
+	foreach2(String& k, const String& v, q) got[vfx::S(k)] = vfx::S(v);
+	if (got != model || (size_t)q.length() != model.size()) {
+		std::string gg = "{";
+		for (std::map<Bytes, Bytes>::iterator it = got.begin(); it != got.end(); ++it) gg += (gg.size() > 1 ? ", " : "") + show(it->first) + ": " + show(it->second);
+		bad("query_roundtrip", "Url::parseQuery(Url::params(" + ddf() + ")): query string " + show(vfx::S(p)) + " parses to " + gg + fmt("} (%d entries)", q.length()), kase);
+	}
 }
 
 // ------------------------------------------------------------------------------------------------
@@ -448,7 +466,7 @@ static void check_sha(const Bytes& m, const std::string& kase, bool forms) {
 		Tight t(m);
 		SHA1::Hash h = SHA1::hash(t.p, (int)n);
 		vf::add(C_EVAL);
-		if (!asan("sha_oob", fmt("SHA1::hash(ptr, %d)", (int)n), kase) && memcmp(&h[0], exp.data(), 20) != 0)
+		if (!asan("sha_oob", W(fmt("SHA1::hash(ptr, %d)", (int)n)), kase) && memcmp(&h[0], exp.data(), 20) != 0)
 			bad("sha1", fmt("SHA1::hash(%d-byte message ", (int)n) + vf::hex(m.substr(0, 16)) + (n > 16 ? "..." : "") + ") = " + vf::hex(&h[0], 20) + ", FIPS 180-4 gives " + vf::hex(exp), kase);
 	}
 	if (!forms) return;
@@ -456,7 +474,7 @@ static void check_sha(const Bytes& m, const std::string& kase, bool forms) {
 		ByteArray a((const byte*)m.data(), (int)n);
 		SHA1::Hash h = SHA1::hash(a);
 		vf::add(C_EVAL);
-		if (!asan("sha_oob", "SHA1::hash(ByteArray)", kase) && memcmp(&h[0], exp.data(), 20) != 0) bad("sha1", fmt("SHA1::hash(ByteArray of %d bytes) = ", (int)n) + vf::hex(&h[0], 20) + ", FIPS 180-4 gives " + vf::hex(exp), kase);
+		if (!asan("sha_oob", W("SHA1::hash(ByteArray)"), kase) && memcmp(&h[0], exp.data(), 20) != 0) bad("sha1", fmt("SHA1::hash(ByteArray of %d bytes) = ", (int)n) + vf::hex(&h[0], 20) + ", FIPS 180-4 gives " + vf::hex(exp), kase);
 	}
 	if (memchr(m.data(), 0, n) == 0) {
 		String s = vfx::A(m);
@@ -465,7 +483,7 @@ static void check_sha(const Bytes& m, const std::string& kase, bool forms) {
 		vfx::FlushBuf fb(m);
 		SHA1::Hash h2 = SHA1::hash((const char*)fb.p);
 		vf::add(C_EVAL, 2);
-		if (!asan("sha_oob", "SHA1::hash(String / char*)", kase) && (memcmp(&h[0], exp.data(), 20) != 0 || memcmp(&h2[0], exp.data(), 20) != 0))
+		if (!asan("sha_oob", W("SHA1::hash(String / char*)"), kase) && (memcmp(&h[0], exp.data(), 20) != 0 || memcmp(&h2[0], exp.data(), 20) != 0))
 			bad("sha1", fmt("SHA1::hash(String / char* of %d bytes) = ", (int)n) + vf::hex(&h[0], 20) + " / " + vf::hex(&h2[0], 20) + ", FIPS 180-4 gives " + vf::hex(exp), kase);
 	}
 }
@@ -618,8 +636,12 @@ static void run_case(const std::string& k) {
 	else { fprintf(stderr, "c15: unknown case '%s'\n", k.c_str()); exit(2); }
 }
 
+static std::string laps; static double lap_t;
+static void lap(const char* name) { double t = vf::now_s(); laps += fmt("%s%s %.1f", laps.empty() ? "" : ", ", name, t - lap_t); lap_t = t; vf::setinfo("seconds_per_pass", vf::jstr(laps)); }
+
 int main(int argc, char** argv) {
 	vf::init(argc, argv, "C15", "c15_codecs");
+	lap_t = vf::now_s();
 	C_EVAL = vf::counter("evaluations"); C_DISTINCT = vf::counter("distinct_nontrivial");
 	W_TAIL[0] = vf::counter("w.b64_len_mod3_0_no_padding"); W_TAIL[1] = vf::counter("w.b64_len_mod3_1_two_pads"); W_TAIL[2] = vf::counter("w.b64_len_mod3_2_one_pad");
 	W_WS = vf::counter("w.b64_valid_text_with_whitespace"); W_WS_PAD = vf::counter("w.b64_whitespace_next_to_or_after_padding");
@@ -630,11 +652,13 @@ int main(int argc, char** argv) {
 	W_URL_ESC = vf::counter("w.url_something_escaped"); W_URL_PLAIN = vf::counter("w.url_nothing_escaped"); W_URL_MODE = vf::counter("w.url_component_mode_escapes_more"); W_URL_MALFORMED = vf::counter("w.url_decode_truncated_or_nonhex_escape");
 	W_Q_EMPTYV = vf::counter("w.query_empty_value"); W_Q_TWO = vf::counter("w.query_two_entries"); W_Q_SPECIAL = vf::counter("w.query_key_or_value_with_separator_plus_space_percent");
 	W_SHA_1BLK = vf::counter("w.sha_padding_fits_last_block"); W_SHA_2BLK = vf::counter("w.sha_padding_needs_extra_block"); W_SHA_EDGE = vf::counter("w.sha_len_mod64_in_55_56_63_0"); W_SHA_DIRECT = vf::counter("w.sha_blocks_hashed_in_place"); W_SHA_LARGE = vf::counter("w.sha_message_1MiB_or_more");
+	for (int k = 0; k < NSIGS; k++) C_SIG[k] = vf::counter((std::string("failures.") + SIGS[k]).c_str());
 	N_URL_STD = vf::counter("url_encode_equals_rfc3986_reference"); N_B64_LARGE = vf::counter("arrays_longer_than_1024");
 	if (vf::opt.replay) { vf::parallel(1, [&](uint64_t) { run_case(vf::opt.kase); }); return vf::finish(); }
 	bool T = vf::opt.thorough();
 
 	crosscheck_python();
+	lap("python");
 
 	// ---- (A) byte arrays ------------------------------------------------------------------------
 	// every array of length <= 2, all calling forms
@@ -642,6 +666,7 @@ int main(int argc, char** argv) {
 		if (it == 256) { check_array(Bytes(), "bytes:", true); for (int a = 0; a < 256; a++) { Bytes d(1, (char)a); check_array(d, "bytes:" + vf::hex(d), true); } return; }
 		for (int b = 0; b < 256; b++) { Bytes d(2, (char)it); d[1] = (char)b; check_array(d, "bytes:" + vf::hex(d), true); }
 	});
+	lap("arrays<=2");
 	// every array of length 3 (= every group of four Base64 symbols); quick: every fourth value of the third byte is replaced by a stride that still
 	// covers all 64 values of each symbol position
 	vf::parallel(65536, [&](uint64_t it) {
@@ -653,9 +678,11 @@ int main(int argc, char** argv) {
 			check_array(d, "bytes:" + vf::hex(d), false);
 		}
 	}, 64);
+	lap("arrays3");
 	// every length 0..Lmax with four contents, all forms and line-wrapped layouts
 	int Lmax = T ? 4096 : 1024;
 	vf::parallel((uint64_t)(Lmax + 1) * NKIND, [&](uint64_t it) { size_t len = it / NKIND; int k = (int)(it % NKIND); check_array(content(len, k), fmt("gen:%lu:%d", (unsigned long)len, k), true); }, 8);
+	lap("lengths");
 	// lengths 2^k-1, 2^k, 2^k+1 up to 4 MiB
 	{
 		std::vector<size_t> bl = big_lengths(22);
@@ -666,6 +693,7 @@ int main(int argc, char** argv) {
 			check_array(content(len, k), fmt("gen:%lu:%d", (unsigned long)len, k), true);
 		});
 	}
+	lap("big");
 	if (vf::deadline_passed()) vf::cap_hit("deadline after the byte-array pass");
 
 	// ---- (W) whitespace at every position of short texts -----------------------------------------
@@ -678,12 +706,14 @@ int main(int argc, char** argv) {
 		vf::parallel(ws.size(), [&](uint64_t it) { ws_insertions(ref_b64enc(ws[it]), ins, 0, "", 0); });
 	}
 
+	lap("whitespace");
 	// ---- (M) arbitrary Base64 text -----------------------------------------------------------------
 	all_strings_upto(A64, 5, check_b64_text); // shortest first, so the minimal failing texts are the ones written out
 	for (int len = 6; len <= (T ? 9 : 8); len++) {
 		if (vf::deadline_passed()) { vf::cap_hit(fmt("deadline before Base64 texts of length %d", len)); break; }
 		all_strings(A64, len, 3, check_b64_text);
 	}
+	lap("b64texts");
 	// ---- (H) arbitrary hex text --------------------------------------------------------------------
 	all_strings_upto(AHEX, 5, check_hex_text);
 	for (int len = 6; len <= (T ? 10 : 8); len++) {
@@ -697,6 +727,7 @@ int main(int argc, char** argv) {
 		if (len) { std::string t = s; t[len - 1] = 'g'; check_hex_text(t); t = s; t[0] = ' '; check_hex_text(t); t = s; t[len / 2] = 'F'; check_hex_text(t); }
 	}, 4);
 
+	lap("hextexts");
 	// ---- (U) percent-coding ------------------------------------------------------------------------
 	for (int len = 0; len <= (T ? 6 : 5); len++) all_strings(AURL, len, 2, [](const std::string& s) { check_url(s, 0); check_url(s, 1); });
 	vf::parallel(256, [&](uint64_t a) { // every single byte and every pair of bytes (NUL excluded: asl::String is a C string)
@@ -704,6 +735,7 @@ int main(int argc, char** argv) {
 		for (int b = 1; b < 256; b++) { Bytes s(2, (char)a); s[1] = (char)b; check_url(s, 0); check_url(s, 1); }
 	});
 	for (int len = 0; len <= (T ? 8 : 6); len++) all_strings(AUDEC, len, 2, check_urldec);
+	lap("url");
 	// ---- (Q) query dictionaries ----------------------------------------------------------------------
 	{
 		std::vector<Bytes> keys = strings_upto(AURL, 3), vals = strings_upto(AURL, T ? 3 : 2);
@@ -720,6 +752,7 @@ int main(int argc, char** argv) {
 			}
 		});
 	}
+	lap("query");
 	if (vf::deadline_passed()) vf::cap_hit("deadline after the URL pass");
 
 	// ---- (S) SHA-1 -----------------------------------------------------------------------------------
@@ -741,6 +774,7 @@ int main(int argc, char** argv) {
 		});
 	}
 
+	lap("sha1");
 	vf::sample("bytes:f0ff -> encodeBase64 == \"8P8=\" (RFC 4648), encodeHex == \"f0ff\", decodeBase64(String / char* / char*,n / unterminated buffer,n) and decodeHex give back f0ff");
 	vf::sample("b64ws: \"8 P\\n8\\t=\" and every other placement of <= 2 (thorough 3) of {space,LF,CR,TAB} in the texts of all arrays <= 6 bytes; CRLF/76, LF/64 and space/1 layouts for every length");
 	vf::sample("b64bad: every string <= 8 over \"A/+= \\n!z\" e.g. \"=====\", \"A=A=\", \"!z\\n=\" through decodeBase64(String), (char*), (char*, every n < strlen), (unterminated, n)");
